@@ -32,6 +32,15 @@ def run(ctx, rep, pid='C01'):
             hw = CV.has_atom(d, ('param', 'weather'))
             rep.ob('R1.3', 'Dhuhr:no-weather', not hw, 'no weather atom in the Dhuhr term' if not hw else 'Dhuhr depends on weather')
             rep.sample({'Dhuhr': show(d, maxd=7)[:500]})
+            # R1.5 constants of the transit computation (Meeus ch. 15): hours per day, degrees per turn, sidereal rate
+            from .common import const_f64
+            consts = sorted({const_f64(x) for x in subterms(d) if const_f64(x) is not None})
+            top = d[2] if d[0] == 'bin' and d[1] == 'Mul' and const_f64(d[2]) is not None else (d[3] if d[0] == 'bin' and d[1] == 'Mul' else None)
+            rep.ob('R1.5', 'hours-per-day', top is not None and const_f64(top) == 24.0, f'day fraction is scaled by {show(top) if top else None} (24 h)')
+            sid = [k for k in consts if 360.5 < k < 361.5]
+            rep.ob('R1.5', 'sidereal-rate', len(sid) == 1 and abs(sid[0] - 360.985647) < 1e-4,
+                   f'sidereal rotation per day {sid} (360.985647 deg)')
+            rep.ob('R1.5', 'degrees-per-turn', 360.0 in consts, f'constants used: {consts}')
     modular.check(ctx, rep, c)
     if pid == 'C01':
         julian.check(ctx, rep, 'R1.4')
